@@ -22,7 +22,9 @@ def qs(x):
 
 
 def q16(x):
-    return str(math.floor(Fraction(float(x)) * 65536 + Fraction(1, 2)))
+    x = float(x)
+    if -1e10 < x < 1e10: return str(math.floor(x * 65536.0 + 0.5))      # exact in doubles (scaling by 2^16, |result| < 2^52)
+    return str(math.floor(Fraction(x) * 65536 + Fraction(1, 2)))
 
 
 def exn_name(e):
@@ -69,6 +71,20 @@ def apply_op(g, op):
     elif k == 'nl': g.set_column_num_layers(g.column[op[1]])
     elif k == 'sb': g.setup_block_name_index()
     elif k == 'sk': g.setup_block_connection_name_index()
+    elif k == 'cf': g.check(fix=True, silent=True)
+    elif k == 'rd': g.reduce(list(op[1]))
+    elif k == 'rf': g.refine(list(op[1]))
+    elif k == 'tr': g.triangulate_column(op[1])
+    elif k == 'de': g.decompose_columns(list(op[1]))
+    elif k == 'ry': g.refine_layers(list(op[1]), factor=op[2])
+    elif k == 'cl':
+        other = m.mulgrid(convention=g.convention, atmos_type=g.atmosphere_type)
+        for (nm, b, c, t) in op[1]: other.add_layer(m.layer(nm, float(b), float(c), float(t)))
+        g.copy_layers_from(other)
+    elif k == 'sn': g.snap_columns_to_layers(float(op[1]), list(op[2]))
+    elif k == 'sr': g.snap_columns_to_nearest_layers(list(op[1]))
+    elif k == 'tl': g.translate([float(op[1]), float(op[2]), float(op[3])])
+    elif k == 'ro': g.rotate(float(op[1]))
     else: raise RuntimeError('unknown op %r' % (op,))
     return g
 
@@ -89,6 +105,19 @@ def encode_op(op):
     if k in ('rc', 'rl'): return '%s,%s,%s' % (k, names(op[1]), names(op[2]))
     if k in ('do', 'in', 'lt', 'ds', 'sb', 'sk'): return k
     if k == 'ss': return 'ss,%s,%s' % (hx(op[1]), qs(op[2]))
+    keys = lambda l: '.'.join(hx(x) for kk in l for x in kk)
+    nats = lambda l: '.'.join(str(i) for i in l)
+    if k == 'cf': return 'cf,%s,%s' % (keys(op[1]), names(op[2]))
+    if k == 'rd': return 'rd,%s,%s,%s' % (names(op[1]), keys(op[2]), names(op[3]))
+    if k == 'rf': return 'rf,%s,%s,%s,%s,%s' % (names(op[1]), nats(op[2]), op[3] if isinstance(op[3], str) else nats(op[3]), nats(op[4]), keys(op[5]))
+    if k == 'tr': return 'tr,%s' % hx(op[1])
+    if k == 'de': return 'de,%s,%s,%s' % (names(op[1]), '.'.join(':'.join(str(i) for i in l) for l in op[2]), keys(op[3]))
+    if k == 'ry': return 'ry,%s,%d' % (names(op[1]), op[2])
+    if k == 'cl': return 'cl' + ''.join(',%s,%s,%s,%s' % (hx(n), qs(b), qs(c), qs(t)) for (n, b, c, t) in op[1])
+    if k == 'sn': return 'sn,%s,%s' % (qs(op[1]), names(op[2]))
+    if k == 'sr': return 'sr,%s' % names(op[1])
+    if k == 'tl': return 'tl,%s,%s,%s' % (qs(op[1]), qs(op[2]), qs(op[3]))
+    if k == 'mv': return 'mv,%s,%s' % ('.'.join('%s:%s' % (qs(x), qs(y)) for x, y in op[1]), '.'.join('%s:%s' % (qs(x), qs(y)) for x, y in op[2]))
     raise RuntimeError('unknown op %r' % (op,))
 
 
@@ -97,7 +126,9 @@ OP_METHOD = {'an': 'add_node', 'dn': 'delete_node', 'ac': 'add_column', 'dc': 'd
              'rc': 'rename_column', 'rl': 'rename_layer', 'sp': 'split_column', 'do': 'delete_orphans',
              'in': 'identify_neighbours', 'lt': 'identify_layer_tops', 'ds': 'set_default_surface',
              'ss': 'set_surface', 'nl': 'set_column_num_layers', 'sb': 'setup_block_name_index',
-             'sk': 'setup_block_connection_name_index'}
+             'sk': 'setup_block_connection_name_index', 'cf': 'check', 'rd': 'reduce', 'rf': 'refine', 'tr': 'triangulate_column',
+             'de': 'decompose_columns', 'ry': 'refine_layers', 'cl': 'copy_layers_from', 'sn': 'snap_columns_to_layers',
+             'sr': 'snap_columns_to_nearest_layers', 'tl': 'translate', 'ro': 'rotate', 'mv': 'rotate'}
 
 
 # ----------------------------------------------------------------------------------------------
@@ -164,3 +195,221 @@ def settings(g, fixbits=0):
 def case_line(g0, prefix, ops, hash_mode, fixbits=0):
     return '%s%d\t%s\t' % ('H' if hash_mode else 'F', len(prefix) - 1, settings(g0, fixbits)) + \
         '\t'.join(encode_op(o) for o in list(prefix) + list(ops))
+
+
+# ----------------------------------------------------------------------------------------------
+# the property statement, evaluated on the real object (the oracle; independent of the model).
+# One list of messages per clause class; an empty dict means the geometry is consistent.
+CLASSES = ('lookup', 'connection-keys', 'node-columns', 'column-connections', 'neighbours', 'connection-nodes',
+           'polygon', 'num-layers', 'name-lists')
+REQUIRED = {
+    'lookup': 'the by-name lookups node/column/layer/well and the ordered lists hold the same objects, each filed under its own name',
+    'connection-keys': 'the connection lookup and connectionlist hold the same objects, each filed under the pair of the current names of its two columns',
+    'node-columns': 'each node.column is exactly the set of columns of the geometry that use the node (and columns use nodes of the geometry)',
+    'column-connections': 'each column.connection is exactly the set of connections of the geometry that join it (to another column of the geometry)',
+    'neighbours': 'each column.neighbour is exactly the set of columns it is connected to, symmetrically',
+    'connection-nodes': "each connection's two nodes are the edge its two columns share",
+    'polygon': 'every column is counter-clockwise with positive area',
+    'num-layers': "every column's num_layers matches its surface",
+    'name-lists': 'block_name_list / block_connection_name_list (and their indices) equal a fresh recomputation',
+    'valid-mesh': 'the operation promises a valid mesh: no missing or extra connections, no orphan nodes',
+}
+
+
+def fresh_names(g):
+    """what setup_block_name_index(); setup_block_connection_name_index() would give now (state restored)"""
+    keep = (g.block_name_list, g.block_name_index, g.block_connection_name_list, g.block_connection_name_index)
+    try:
+        g.setup_block_name_index()
+        bl, bi = g.block_name_list, g.block_name_index
+        # the connection list is defined in terms of the CURRENT block_name_list (its first entry is the
+        # atmosphere block): recompute it against the stored one, as a call of the method alone would
+        g.block_name_list, g.block_name_index = keep[0], keep[1]
+        g.setup_block_connection_name_index()
+        cl, ci = g.block_connection_name_list, g.block_connection_name_index
+    finally:
+        g.block_name_list, g.block_name_index, g.block_connection_name_list, g.block_connection_name_index = keep
+    return bl, bi, cl, ci
+
+
+def inv_classes(g, limit=2):
+    from geometry import polygon_area
+    bad = {}
+
+    def add(cls, msg):
+        l = bad.setdefault(cls, [])
+        if len(l) < limit: l.append(msg)
+
+    def pair(cls, kind, lst, dct, keyof):
+        ids = [id(o) for o in lst]
+        if len(set(ids)) != len(ids): add(cls, '%slist holds the same object twice' % kind)
+        if set(ids) != set(id(o) for o in dct.values()) or len(dct) != len(set(ids)):
+            add(cls, '%s lookup and %slist do not hold the same objects (lookup %d, list %d)' % (kind, kind, len(dct), len(lst)))
+        for k, o in dct.items():
+            if keyof(o) != k:
+                add(cls, '%s filed under %r is named %r' % (kind, k, keyof(o))); break
+    pair('lookup', 'node', g.nodelist, g.node, lambda n: n.name)
+    pair('lookup', 'column', g.columnlist, g.column, lambda c: c.name)
+    pair('lookup', 'layer', g.layerlist, g.layer, lambda l: l.name)
+    pair('lookup', 'well', g.welllist, g.well, lambda w: w.name)
+    pair('connection-keys', 'connection', g.connectionlist, g.connection, lambda c: tuple(x.name for x in c.column))
+    nodes, cols, cons = set(map(id, g.nodelist)), set(map(id, g.columnlist)), set(map(id, g.connectionlist))
+    uses = {}
+    for c in g.columnlist:
+        for n in c.node:
+            if id(n) not in nodes: add('node-columns', 'column %r uses node %r, which is not in the geometry' % (c.name, n.name))
+            uses.setdefault(id(n), set()).add(id(c))
+    for n in g.nodelist:
+        have = set(id(c) for c in n.column)
+        if have != uses.get(id(n), set()):
+            add('node-columns', 'node %r records columns %s but is used by %s' % (
+                n.name, sorted(c.name for c in n.column), sorted(c.name for c in g.columnlist if id(c) in uses.get(id(n), set()))))
+    joins, nbrs = {}, {}
+    for con in g.connectionlist:
+        a, b = con.column
+        if id(a) not in cols or id(b) not in cols or a is b:
+            add('column-connections', 'connection %r joins a column that is not in the geometry (or a column with itself)' % (con,))
+        for x, y in ((a, b), (b, a)):
+            joins.setdefault(id(x), set()).add(id(con)); nbrs.setdefault(id(x), set()).add(id(y))
+    for c in g.columnlist:
+        if set(id(k) for k in c.connection) != joins.get(id(c), set()):
+            add('column-connections', 'column %r records connections %s but is joined by %s' % (
+                c.name, sorted(map(repr, c.connection)), sorted(repr(k) for k in g.connectionlist if id(k) in joins.get(id(c), set()))))
+        if set(id(d) for d in c.neighbour) != nbrs.get(id(c), set()):
+            add('neighbours', 'column %r records neighbours %s but is connected to %s' % (
+                c.name, sorted(d.name for d in c.neighbour), sorted(d.name for d in g.columnlist if id(d) in nbrs.get(id(c), set()))))
+        for d in c.neighbour:
+            if c not in d.neighbour: add('neighbours', 'column %r has neighbour %r but not the other way round' % (c.name, d.name))
+    for con in g.connectionlist:
+        a, b = con.column
+        nd = con.node
+        ok = nd is not None and len(nd) == 2 and nd[0] is not nd[1] and all(any(n is m for m in col.node) for n in nd for col in (a, b))
+        if ok:
+            for col in (a, b):
+                i = [k for k, m in enumerate(col.node) if m is nd[0]][0]
+                nn = len(col.node)
+                if not (col.node[(i + 1) % nn] is nd[1] or col.node[(i - 1) % nn] is nd[1]): ok = False
+        if not ok:
+            add('connection-nodes', 'connection %r has nodes %r, not an edge of both %r and %r' % (con, nd, a.node, b.node))
+    for c in g.columnlist:
+        ids = [id(n) for n in c.node]
+        if len(ids) < 3 or len(set(ids)) != len(ids):
+            add('polygon', 'column %r has nodes %r' % (c.name, c.node)); continue
+        a = polygon_area([np.array(n.pos, dtype=float) for n in c.node])
+        if not a > 0: add('polygon', 'column %r has signed area %r' % (c.name, a))
+        elif abs(c.area - a) > 1e-9 * max(1.0, abs(a)): add('polygon', 'column %r caches area %r, its polygon has %r' % (c.name, c.area, a))
+    if len(g.layerlist) > 1:
+        for c in g.columnlist:
+            if c.surface is None: add('num-layers', 'column %r has no surface elevation' % c.name); continue
+            n = len([l for l in g.layerlist[1:] if l.bottom < c.surface])
+            if c.num_layers != n: add('num-layers', 'column %r has num_layers %r; %d layers lie below its surface %r' % (c.name, c.num_layers, n, c.surface))
+    else:
+        for c in g.columnlist:
+            if c.num_layers != 0: add('num-layers', 'column %r has num_layers %r in a geometry with no underground layer' % (c.name, c.num_layers))
+    try:
+        bl, bi, cl, ci = fresh_names(g)
+        if bl != g.block_name_list: add('name-lists', 'block_name_list has %d names, a fresh recomputation %d' % (len(g.block_name_list), len(bl)) if len(bl) != len(g.block_name_list) else 'block_name_list differs from a fresh recomputation')
+        elif bi != g.block_name_index: add('name-lists', 'block_name_index differs from a fresh recomputation')
+        if cl != g.block_connection_name_list: add('name-lists', 'block_connection_name_list has %d names, a fresh recomputation %d' % (len(g.block_connection_name_list), len(cl)) if len(cl) != len(g.block_connection_name_list) else 'block_connection_name_list differs from a fresh recomputation')
+        elif ci != g.block_connection_name_index: add('name-lists', 'block_connection_name_index differs from a fresh recomputation')
+    except Exception as e:
+        add('name-lists', 'a fresh recomputation of the name lists raises %s' % exn_name(e))
+    return bad
+
+
+def mesh_defects(g):
+    """missing / extra connections and orphan nodes, as mulgrid.check(fix=False) finds them"""
+    out = []
+    mc = g.missing_connections
+    if mc: out.append('missing connections %s' % sorted(repr(c) for c in mc)[:4])
+    ec = g.extra_connections
+    if ec: out.append('extra connections %s' % sorted(ec)[:4])
+    orph = g.orphans
+    if orph: out.append('orphan nodes %s' % sorted(n.name for n in orph)[:4])
+    return out
+
+# edits that promise a valid mesh (they call missing_connections / check(fix) / delete_orphans themselves)
+PROMISES_VALID_MESH = set(['cf', 'rd', 'rf', 'de'])
+
+
+# ----------------------------------------------------------------------------------------------
+# hints: what the model cannot know -- the iteration order of Python sets of objects, and float geometry
+# that does not enter the combinatorial state.  `pre_hints` looks at the geometry BEFORE the edit,
+# `post_hints` at the geometry after it.
+def _bad_names(cols):
+    out = []
+    for c in cols:
+        try:
+            if not c.contains_point(c.centre): out.append(c.name)
+        except Exception: pass
+    return out
+
+
+def pre_hints(g, op):
+    k = op[0]
+    h = {'klist': list(g.connectionlist)}          # the objects themselves (an id() may be re-used once an object is freed)
+    try:
+        if k == 'cf': h['cols'] = list(g.columnlist)
+        elif k == 'rd': h['cols'] = [g.column[n] for n in op[1] if n in g.column]
+        elif k == 'rf':
+            # the same set expressions as mulgrid.refine(): same objects, same operations => same iteration order
+            columns = g.columnlist if list(op[1]) == [] else [g.column[n] for n in op[1]]
+            connections = set([])
+            for col in columns: connections = connections | col.connection
+            columns_plus_edge = set(columns) | set([])
+            for con in connections: columns_plus_edge = columns_plus_edge | set(con.column)
+            kpos, cpos, npos = _pos(g.connectionlist), _pos(g.columnlist), _pos(g.nodelist)
+            h['hk'] = [kpos.get(id(c), 999999) for c in connections]
+            h['hc'] = [cpos.get(id(c), 999999) for c in columns_plus_edge]
+            h['hb'] = []
+            if all(c.num_nodes in [3, 4] for c in columns_plus_edge):
+                try: h['hb'] = [npos.get(id(n), 999999) for n in g.boundary_nodes]
+                except Exception as e: h['hb'] = '!' + exn_name(e)
+        elif k == 'de':
+            hs = []
+            for n in op[1]:
+                c = g.column.get(n)
+                if c is None or c.num_nodes <= 4: hs.append([]); continue
+                hs.append([i for i, a in enumerate(c.interior_angles) if a > np.pi - 1.e-3])
+            h['hs'] = hs
+    except Exception as e:
+        h['error'] = exn_name(e)
+    return h
+
+
+def post_hints(g, op, h):
+    """the edit with its hints filled in (the form that is encoded for the model)"""
+    k = op[0]
+    old = set(id(c) for c in h.get('klist', []))
+    new_keys = [(c.column[0].name, c.column[1].name) for c in g.connectionlist if id(c) not in old]
+    if k == 'cf': return ('cf', new_keys, _bad_names([c for c in h.get('cols', []) if c.name in g.column and g.column[c.name] is c]))
+    if k == 'rd': return ('rd', list(op[1]), new_keys, _bad_names([c for c in h.get('cols', []) if c.name in g.column and g.column[c.name] is c]))
+    if k == 'rf': return ('rf', list(op[1]), h.get('hk', []), h.get('hb', []), h.get('hc', []), new_keys)
+    if k == 'de': return ('de', list(op[1]), h.get('hs', []), new_keys)
+    if k == 'ro': return ('mv', [(n.pos[0], n.pos[1]) for n in g.nodelist], [(c.centre[0], c.centre[1]) for c in g.columnlist])
+    return op
+
+
+def failed_hints(op, h):
+    """the edit raised: encode it with the hints known beforehand"""
+    k = op[0]
+    if k == 'cf': return ('cf', [], [])
+    if k == 'rd': return ('rd', list(op[1]), [], [])
+    if k == 'rf': return ('rf', list(op[1]), h.get('hk', []), h.get('hb', []), h.get('hc', []), [])
+    if k == 'de': return ('de', list(op[1]), h.get('hs', []), [])
+    if k == 'ro': return ('mv', [], [])
+    return op
+
+
+HINTED = ('cf', 'rd', 'rf', 'de', 'ro')
+
+
+def apply_op_h(g, op):
+    """apply the edit; returns (geometry, edit with hints, exception name or None)"""
+    if op[0] not in HINTED:
+        try: return apply_op(g, op), op, None
+        except Exception as e: return g, op, exn_name(e)
+    h = pre_hints(g, op)
+    try: g = apply_op(g, op)
+    except Exception as e: return g, failed_hints(op, h), exn_name(e)
+    return g, post_hints(g, op, h), None
